@@ -10,7 +10,8 @@ from common import L, ModelRaise, exc_kind
 
 RULE = ("convex vertex sets from gen.convex_solid (ellipsoid/lattice/zonotope/box/prism/antiprism/(di)pyramid/"
         "needle/plate/simplex; random rigid motion, offset <=10 diameters, scale 1e-3..1e3) in two vertex orders, "
-        "exactly integral lattice/zonotope polytopes (exact-Q certificate), and the tabulated solids; for each: the "
+        "exactly integral polytopes (lattice/zonotope/int-box/int-prism/int-pyramid/int-bipyramid/int-hull; exact-Q "
+        "surface certificate), and the tabulated solids; for each: the "
         "ConvexPolyhedron, a relabelled Polyhedron with every face cycle randomly permuted/reversed (sort_faces), and "
         "a randomly fan-triangulated, randomly oriented Polyhedron (merge_faces); distinct = distinct vertex arrays; "
         "non-trivial = >=4 vertices in convex position")
@@ -20,8 +21,11 @@ ASSUMPTIONS = [
     "(near-boundary); outward ccw cycles are built by the harness with its own in-plane basis",
     "for exactly integral inputs the supporting-facet / convex-ccw / triangulation clauses are decided exactly over "
     "Q by the Lean spec (Spec/Structure.lean); otherwise with tolerance 1e-9*size",
-    "Euler's relation and 'these are the facets of the hull' rest on Qhull: enforced per instance (closed oriented "
-    "surface of supporting facets, V-E+F=2 counted from edges), not proved",
+    "certificate-relative clauses: the driver evaluates over Q, on the implementation's own faces/simplices, the "
+    "decidable certificates `surfaceCert` (integral inputs), `simplexCert` (all inputs: doubles are dyadic rationals) "
+    "and `orientCert`; Lean proves that they imply the clauses of the property (`surface_cert_sound`, "
+    "`sort_simplices_outward`, `poly_sort_faces_oriented`). COMPLETENESS of the face list (no further facet of the "
+    "hull exists) is not proved: it is enforced by the Euler count of the certificate and the independent hull",
     "external results are parameters of the model: Qhull simplices/equations/neighbours, rowan.mapping.kabsch "
     "(contract R^T R=1, det R=1, R n=z within 1e-12, checked by the driver), the 2-D hull of _is_convex, "
     "scipy connected_components (contract checked by the driver against the model's own labelling)",
@@ -366,6 +370,7 @@ def eval_convex(ctx, case, v, T, tag):
         i_simp = [canon(s) for s in p.simplices]
         if m_simp != i_simp:
             ctx.disagree("st.sort_simplices", case, [m_simp[:4], i_simp[:4]])
+        check_simplex_cert(ctx, case, v, hull, [[int(i) for i in s_] for s_ in p.simplices])
         # hypotheses of `propagation_orients_all` on this instance: the traversal empties its stack
         # within the fuel and reaches every simplex / face (connected neighbour graph)
         for what, FF, NN in (("hull simplices", hull["simplices"], hull["neighbors"]), ("faces", faces, p.neighbors)):
@@ -441,6 +446,56 @@ def eval_convex(ctx, case, v, T, tag):
             # arccos is ill conditioned at 0 and pi: compare through the cosine
             if not ctx.close_enough(np.cos(got[1]), np.cos(mod[1]), 1.0):
                 ctx.disagree("st.dihedral", case, [a, b, got, mod])
+
+    # _find_simplex_equations (recomputed by _sort_simplices from the oriented simplices)
+    m_seq = Tok(drv.F("st.simplex_equations", LV(v), LF(p.simplices))).eqns()
+    scale4 = np.array([1, 1, 1, Ls])
+    i_seq = np.asarray(p._simplex_equations, dtype=float)
+    if not (m_seq.shape == i_seq.shape and ctx.close_enough(m_seq / scale4, i_seq / scale4, 1.0)):
+        ctx.disagree("st.simplex_equations", case, [m_seq[:2].tolist(), i_seq[:2].tolist()])
+    # ConvexPolyhedron._find_equations (what the centroid setter calls): same model as Polyhedron._find_equations,
+    # and the recomputed planes must still be the outward supporting planes the constructor stored
+    try:
+        p3 = coxeter.shapes.ConvexPolyhedron(v)
+        eq_before = np.array(p3.equations, dtype=float)
+        p3._find_equations()
+        eq_after = np.array(p3.equations, dtype=float)
+        m_eq3 = Tok(drv.F("st.equations", LV(v), LF(p3.faces))).eqns()
+        if not ctx.close_enough(m_eq3 / scale4, eq_after / scale4, 1.0):
+            ctx.disagree("st.equations:convex", case, [m_eq3[:2].tolist(), eq_after[:2].tolist()])
+        if not np.allclose(eq_before / scale4, eq_after / scale4, rtol=0, atol=1e-7):
+            ctx.fail("ConvexPolyhedron._find_equations:not-the-outward-supporting-planes",
+                     "equations recomputed from the sorted faces differ from the outward hull equations", case,
+                     {"max_diff": float(np.max(np.abs(eq_before / scale4 - eq_after / scale4)))})
+    except Exception as e:
+        ctx.fail("ConvexPolyhedron._find_equations:raises", "recomputing the equations raised", case, repr(e))
+    # get_dihedral with Python index semantics (negative / out-of-range a, negative b)
+    nb0 = [int(j) for j in p.neighbors[0]]
+    nbl = [int(j) for j in p.neighbors[nf - 1]]
+    for a, b in ((-1, nbl[0] if nbl else 0), (-nf, nb0[0] if nb0 else 0), (-nf - 1, 0), (nf, 0), (0, -1),
+                 (int(sub.integers(-nf, nf)), int(sub.integers(-2, nf)))):
+        try:
+            got = ("ok", float(p.get_dihedral(a, b)))
+        except Exception as e:
+            got = ("E", exc_kind(e))
+        try:
+            mod = ("ok", drv.F("st.dihedral_py", LF(p.neighbors), LV(np.asarray(p.equations)[:, :3]), a, b)[0])
+        except ModelRaise as e:
+            mod = ("E", e.kind)
+        if got[0] != mod[0] or (got[0] == "E" and got[1] != mod[1]) or \
+                (got[0] == "ok" and not ctx.close_enough(np.cos(got[1]), np.cos(mod[1]), 1.0)):
+            ctx.disagree("st.dihedral_py", case, [a, b, got, mod])
+        # C: Python's index convention - face -k IS face F-k
+        if -nf <= a < 0:
+            try:
+                ref = ("ok", float(p.get_dihedral(nf + a, b)))
+            except Exception as e:
+                ref = ("E", exc_kind(e))
+            if got[0] != ref[0] or (got[0] == "E" and got[1] != ref[1]) or \
+                    (got[0] == "ok" and abs(np.cos(got[1]) - np.cos(ref[1])) > 1e-9):
+                ctx.fail("Polyhedron.get_dihedral:negative-index",
+                         "get_dihedral(a, b) with a negative face index differs from get_dihedral(F + a, b)", case,
+                         {"a": a, "b": b, "got": got, "expected": ref})
 
     # ------------------------------------------------------------ C: property oracle
     cls = "ConvexPolyhedron"
@@ -530,9 +585,56 @@ def check_dihedral(ctx, case, v, p, T, faces):
             return
 
 
+CERT_SURFACE = ["surfaceCert", "closed-oriented", "faces-well-formed", "supporting-facets", "convex-ccw-cycles",
+                "every-vertex-used", "euler"]
+
+
+def check_surface_cert(ctx, case, v, faces, prefix):
+    """the decidable certificate of `surface_cert_sound`, evaluated exactly over Q on the implementation's faces"""
+    r = ctx.driver.Q("cert.surface", LV(v), LF(faces))
+    ctx.count("surface-certificates")
+    if not all(r):
+        ctx.fail(prefix + ".faces:exact-certificate",
+                 "the exact surface certificate (closed oriented 2-manifold of supporting facets listed "
+                 "counter-clockwise, every vertex used, V-E+F=2) fails on the implementation's faces", case,
+                 {"failed": [n for n, b in zip(CERT_SURFACE, r) if not b]})
+        return False
+    return True
+
+
+def check_simplex_cert(ctx, case, v, hull, simplices):
+    """the decidable certificate of `sort_simplices_outward` (exact over Q for every input: doubles are dyadic):
+    the implementation's simplices, rotated back onto Qhull's, are the closed oriented OUTWARD orientation"""
+    G = []
+    for s0, s1 in zip(hull["simplices"], simplices):
+        s0 = [int(i) for i in s0]
+        s1 = [int(i) for i in s1]
+        rots = [s1[k:] + s1[:k] for k in range(3)]
+        cand = [r for r in rots if r == s0 or r == s0[::-1]]
+        if not cand:
+            ctx.fail("ConvexPolyhedron.simplices:exact-certificate", "a simplex is not a permutation of Qhull's simplex",
+                     case, {"qhull": s0, "simplex": s1})
+            return
+        G.append(cand[0])
+    r = ctx.driver.Q("cert.simplices", LV(v), LF(hull["simplices"]), LF(hull["neighbors"]), LF(G))
+    ctx.count("simplex-certificates")
+    names = ["simplexCert", "same-up-to-reversal", "closed-oriented", "neighbours-share-edge", "connected",
+             "outward-from-mean", "model-output-equals"]
+    if not all(r[:6]):
+        ctx.fail("ConvexPolyhedron.simplices:exact-certificate",
+                 "the exact simplex certificate (closed oriented triangulated surface, every triangle counter-clockwise "
+                 "seen from outside) fails on the implementation's simplices", case,
+                 {"failed": [n for n, b in zip(names, r) if not b]})
+    elif not r[6]:
+        # certificate holds but the model (exact Q run) returned something else: contradicts `sort_simplices_outward`
+        ctx.disagree("cert.simplices:theorem-contradicted", case, r)
+
+
 def check_exact(ctx, case, v, p, faces):
     """exact certificate over Q (Lean spec) for integral inputs"""
     drv = ctx.driver
+    if not check_surface_cert(ctx, case, v, faces, "ConvexPolyhedron"):
+        return
     tot = [Fraction(0)] * 3
     for k, f in enumerate(faces):
         r = drv.Q("spec.facet", LV(v), L(f))
@@ -598,6 +700,28 @@ def model_sort_faces(ctx, v2, faces_in):
         return ("E", e.kind)
 
 
+def check_orient_cert(ctx, case, v2, faces_in, faces_out, prefix):
+    """hypothesis of `poly_sort_faces_oriented` on this instance: the implementation's faces keep or reverse every
+    re-ordered face (the model's `polyReorderFace`), are a closed oriented surface, and the neighbour graph is
+    connected"""
+    re = []
+    for f in faces_in:
+        R = kabsch(first3_normal(v2[f])).ravel()
+        try:
+            re.append(Tok(ctx.driver.F("st.poly_reorder_face", LV(v2), L(f), R, 1)).faces()[0])
+        except ModelRaise as e:
+            ctx.disagree("st.poly_reorder_face:raise", case, e.kind)
+            return
+    r = ctx.driver.F("cert.orient", LF(re), LF(faces_out))
+    ctx.count("orient-certificates")
+    if not all(r):
+        names = ["orientCert", "same-up-to-reversal", "closed-oriented", "connected"]
+        ctx.fail(prefix + ".faces:orientation-certificate",
+                 "the faces are not a closed oriented surface obtained by keeping / reversing each (cyclically "
+                 "re-ordered) input face over a connected neighbour graph", case,
+                 {"failed": [n for n, b in zip(names, r) if not b]})
+
+
 def angular_margin_ok(v2, faces_in):
     """decision margin of the per-face angular sort (ties would be resolved by rounding)"""
     for f in faces_in:
@@ -630,7 +754,13 @@ def eval_sort_faces(ctx, case, v, T):
                  % exc_kind(e), case, repr(e))
         got = ("E", exc_kind(e))
         q = None
-    # B: the faces_are_convex guard (both sides must refuse with ValueError)
+    # B: `faces_are_convex` of the constructor (None -> all faces are triangles) and the guard of sort_faces
+    for given in (-1, 0, 1):
+        flag_impl = bool(coxeter.shapes.Polyhedron(v2, [np.array(f) for f in faces_in],
+                                                   faces_are_convex=[None, False, True][given + 1])._faces_are_convex)
+        flag_mod = bool(ctx.driver.F("st.init_convex_flag", given, LF(faces_in))[0])
+        if flag_impl != flag_mod:
+            ctx.disagree("st.init_convex_flag", case, [given, flag_impl, flag_mod])
     if any(len(f) > 3 for f in faces_in):
         try:
             coxeter.shapes.Polyhedron(v2, [np.array(f) for f in faces_in]).sort_faces()
@@ -638,7 +768,8 @@ def eval_sort_faces(ctx, case, v, T):
         except Exception as e:
             g_impl = exc_kind(e)
         try:
-            ctx.driver.F("st.poly_sort_faces", 0, LV(v2), LF(faces_in), L([]), L([]))
+            flag = int(ctx.driver.F("st.init_convex_flag", -1, LF(faces_in))[0])
+            ctx.driver.F("st.poly_sort_faces", flag, LV(v2), LF(faces_in), L([]), L([]))
             g_mod = "ok"
         except ModelRaise as e:
             g_mod = e.kind
@@ -661,12 +792,17 @@ def eval_sort_faces(ctx, case, v, T):
                 ctx.disagree("st.poly_sort_faces:equations", case, [mod[2][:2].tolist(), eqs_of(q)[:2].tolist()])
             elif mod[3] != [[int(j) for j in row] for row in q.neighbors]:
                 ctx.disagree("st.poly_sort_faces:neighbors", case, [mod[3][:3]])
+        if q is not None:
+            check_orient_cert(ctx, case, v2, faces_in, [[int(i) for i in f] for f in q.faces],
+                              "Polyhedron.sort_faces")
     else:
         ctx.skipped_near_boundary += 1
     # C
     if q is not None:
-        check_structure(ctx, case, "Polyhedron", v2, q.faces, eqs_of(q), q.neighbors, q.edges, T2,
-                        face_to_truth=list(range(len(T2.sets))), prefix="Polyhedron.sort_faces")
+        ok = check_structure(ctx, case, "Polyhedron", v2, q.faces, eqs_of(q), q.neighbors, q.edges, T2,
+                             face_to_truth=list(range(len(T2.sets))), prefix="Polyhedron.sort_faces")
+        if ok and case.get("exact"):
+            check_surface_cert(ctx, case, v2, [[int(i) for i in f] for f in q.faces], "Polyhedron.sort_faces")
 
 
 class Relabelled:
@@ -731,6 +867,7 @@ def eval_merge_faces(ctx, case, v, T):
         g_impl = sorted((int(i), int(j)) for i, j in zip(*np.nonzero(rec["cc"][0]["graph"])))
         r = Tok(ctx.driver.F("st.merge_graph", LE(eq0), LF(nb0), atol, rtol, L(labels), LF(tris)))
         g_mod, contract, merged = r.pairs(), r.one(), r.faces()
+        contract = contract and r.one()  # labelsContract and labelsCert (hypothesis of `merge_faces_components`)
         if sorted(g_mod) != g_impl:
             ctx.disagree("st.merge_graph", case, [sorted(g_mod)[:6], g_impl[:6]])
         elif not contract:
@@ -757,8 +894,10 @@ def eval_merge_faces(ctx, case, v, T):
             else:
                 ctx.skipped_near_boundary += 1
     # C
-    check_structure(ctx, case, "Polyhedron", v, q.faces, eqs_of(q), q.neighbors, q.edges, T,
-                    prefix="Polyhedron.merge_faces")
+    ok = check_structure(ctx, case, "Polyhedron", v, q.faces, eqs_of(q), q.neighbors, q.edges, T,
+                         prefix="Polyhedron.merge_faces")
+    if ok and case.get("exact"):
+        check_surface_cert(ctx, case, v, [[int(i) for i in f] for f in q.faces], "Polyhedron.merge_faces")
 
 
 # --------------------------------------------------------------------------- driver of one case
@@ -790,12 +929,84 @@ def eval_case(ctx, case):
     eval_merge_faces(ctx, case, v, T)
 
 
+def cross2i(a, b):
+    return int(a[0]) * int(b[1]) - int(a[1]) * int(b[0])
+
+
+def int_polygon(rng, lo=3, hi=9):
+    """strictly convex polygon with integer vertices, counter-clockwise"""
+    while True:
+        R = int(rng.integers(3, 12))
+        pts = np.unique(rng.integers(-R, R + 1, size=(int(rng.integers(lo + 2, 3 * hi)), 2)), axis=0)
+        if len(pts) < 3:
+            continue
+        try:
+            h = ConvexHull(pts.astype(float))
+        except Exception:
+            continue
+        P = pts[h.vertices]
+        n = len(P)
+        # exact strict convexity (Qhull may keep collinear points)
+        cr = [cross2i(P[(i + 1) % n] - P[i], P[(i + 2) % n] - P[(i + 1) % n]) for i in range(n)]
+        if lo <= n <= hi and all(c > 0 for c in cr):
+            return P
+
+
+def integral_solid(rng):
+    """exactly integral convex polytopes with non-triangular faces of many kinds (all vertices in convex position)"""
+    kind = ["int-box", "int-prism", "int-pyramid", "int-bipyramid", "int-hull", "int-frustum"][int(rng.integers(6))]
+    if kind == "int-box":
+        a, b, c = (int(x) for x in rng.integers(1, 9, size=3))
+        v = np.array([[x, y, z] for x in (0, a) for y in (0, b) for z in (0, c)], dtype=float)
+    elif kind == "int-prism":
+        P = int_polygon(rng)
+        h = int(rng.integers(1, 9))
+        v = np.array([[x, y, z] for z in (0, h) for x, y in P], dtype=float)
+    elif kind in ("int-pyramid", "int-bipyramid"):
+        P = int_polygon(rng)
+        # apex over an interior lattice point of the base when there is one, else over a vertex (oblique is fine)
+        c = P[int(rng.integers(len(P)))]
+        apex = [[int(c[0]), int(c[1]), int(rng.integers(1, 9))]]
+        if kind == "int-bipyramid":
+            # the second apex must be strictly below the base plane and over the strict interior of the base
+            cx, cy = np.round(P.mean(axis=0)).astype(int)
+            n = len(P)
+            inside = all(cross2i(P[(i + 1) % n] - P[i], np.array([cx, cy]) - P[i]) > 0 for i in range(n))
+            if not inside:
+                return integral_solid(rng)
+            apex = [[int(cx), int(cy), int(rng.integers(1, 9))], [int(cx), int(cy), -int(rng.integers(1, 9))]]
+        v = np.array([[x, y, 0] for x, y in P] + apex, dtype=float)
+    elif kind == "int-frustum":
+        P = int_polygon(rng)
+        k = int(rng.integers(2, 4))
+        h = int(rng.integers(1, 9))
+        v = np.array([[k * x, k * y, 0] for x, y in P] + [[x, y, h] for x, y in P], dtype=float)
+    else:
+        R = int(rng.integers(2, 7))
+        pts = np.unique(rng.integers(-R, R + 1, size=(int(rng.integers(8, 40)), 3)), axis=0).astype(float)
+        try:
+            v = gen.hull_vertices_only(pts)
+        except Exception:
+            return integral_solid(rng)
+    v = v + rng.integers(-5, 6, size=3).astype(float)
+    try:
+        if len(v) < 4 or len(ConvexHull(v).vertices) != len(v):
+            return integral_solid(rng)
+    except Exception:
+        return integral_solid(rng)
+    v = v[rng.permutation(len(v))]
+    return v, {"kind": kind, "rotated": False, "offset_diams": 0.0, "scale": 1.0}
+
+
 def make_case(rng, ctx, exact=False):
     if exact:
-        kind = ["lattice", "zonotope"][int(rng.integers(2))]
-        v, info = gen.convex_solid(rng, kind=kind, rotate=False, offset_diams=0.0, scale=1.0)
-        shift = rng.integers(-5, 6, size=3).astype(float)
-        v = v + shift
+        if rng.random() < 0.6:
+            v, info = integral_solid(rng)
+        else:
+            kind = ["lattice", "zonotope"][int(rng.integers(2))]
+            v, info = gen.convex_solid(rng, kind=kind, rotate=False, offset_diams=0.0, scale=1.0)
+            shift = rng.integers(-5, 6, size=3).astype(float)
+            v = v + shift
         info["exact"] = True
         ctx.count("exact-integral")
     else:
@@ -811,7 +1022,7 @@ def make_case(rng, ctx, exact=False):
 def run(ctx):
     n = ctx.budget(80, 2500)
     for i in range(n):
-        case = make_case(ctx.rng, ctx, exact=(i % 5 == 4))
+        case = make_case(ctx.rng, ctx, exact=(i % 3 == 2))
         ctx.case(case)
         eval_case(ctx, case)
     tabs = gen.tabulated_solids()
